@@ -128,7 +128,7 @@ def reductions(x, y):
     ymax = max(y) if not anynan else math.nan
     idx = [i for i in range(n) if y[i] > 0 and y[i] == ymax] if not anynan else []
     # ties in y == y.max(): values that are equal exactly in rational arithmetic may differ by an ulp in floats
-    near = [i for i in range(n) if not anynan and y[i] > 0 and abs(y[i] - ymax) <= 1e-12]
+    near = [i for i in range(n) if not anynan and y[i] > 0 and abs(y[i] - ymax) <= 1e-12 * ymax]
     def pick(ix):
         if not ix:
             return {"SmallestOfMaximum": math.nan, "MeanOfMaximum": math.nan, "LargestOfMaximum": math.nan}
